@@ -185,6 +185,12 @@ def correspondence(ctx):
 
 def oracle(ctx):
     results = _run(ctx)
+    broken = any(f.kind in ("translator", "coq", "assumptions") for f in ctx.failures)
+    if broken and not getattr(ctx, "c05_deep", False) and not ctx.thorough():
+        # an obligation broke: look harder for a concrete failing crash point (common.py only calls
+        # search() when no failure carries a witness, and the D6 witnesses always do)
+        ctx.c05_deep = True
+        results = results + _deep(ctx)
     reported: dict = {}
     for case, ref, pr in _points(results):
         if ref["error"] is not None:
@@ -221,14 +227,20 @@ def oracle(ctx):
         ctx.count("failures:" + sig, n)
 
 
-def search(ctx):
-    """A deeper run of the oracle: every point of six more projects."""
+def _deep(ctx):
+    """Every crash point of six more projects."""
     from . import e3
     rng = random.Random(f"c05-search-{ctx.seed}")
     names = [n for n, _ in cc.FAMILIES] + ["gen"]
     jobs = [{"case": cc.make_case(rng.choice(names), rng.randrange(10000))} for _ in range(6)]
-    ctx.c05_results = e3.pool_map(cc.run_job, jobs, nproc=6)
-    oracle(ctx)
+    return e3.pool_map(cc.run_job, jobs, nproc=6)
+
+
+def search(ctx):
+    if not getattr(ctx, "c05_deep", False):
+        ctx.c05_deep = True
+        ctx.c05_results = _deep(ctx)
+        oracle(ctx)
 
 
 def replay(ctx, obj):
